@@ -48,7 +48,13 @@ func debugOrigins(w *World, sub string) {
 func init() {
 	for i, a := range os.Args {
 		if a == "-origins" && i+1 < len(os.Args) {
-			w, err := loadWorld("/repo", nil)
+			root := "/repo"
+			for j, b := range os.Args {
+				if b == "-repo" && j+1 < len(os.Args) {
+					root = os.Args[j+1]
+				}
+			}
+			w, err := loadWorld(root, nil)
 			if err != nil {
 				fmt.Println(err)
 				os.Exit(2)
